@@ -29,7 +29,7 @@ import shutil
 import subprocess
 import time
 
-from ..core import BUILD, b64, hx, parallel_map, unhx
+from ..core import BUILD, REPO, b64, hx, parallel_map, unhx
 
 DRIVERS = ["drv_pager"]
 
@@ -41,6 +41,7 @@ if [ "$1" = "--version" ] && [ -n "$STUB_LESS_VERSION" ]; then echo "$STUB_LESS_
 d="$STUB_DIR"
 echo $$ > "$d/pager.pid"
 { printf '%s\n' "$0"; for a in "$@"; do printf '%s\n' "$a"; done; } > "$d/pager.argv"
+printf '%s\n' "${LESSHISTFILE-<unset>}" > "$d/pager.histfile"
 if [ -n "$STUB_READ_BYTES" ]; then /usr/bin/head -c "$STUB_READ_BYTES" > "$d/pager.stdin"
 else /usr/bin/cat > "$d/pager.stdin"; fi
 if [ -n "$STUB_SLEEP" ]; then /usr/bin/sleep "$STUB_SLEEP"; fi
@@ -190,7 +191,7 @@ class Lab:
     def base_env(self, sdir, path_dirs, home=None):
         e = {"HOME": home or self.home, "GIT_CONFIG_NOSYSTEM": "1", "DELTA_VERIF_FORCE_GUESS": "none",
              "PATH": ":".join(path_dirs), "STUB_DIR": sdir, "LANG": "C.UTF-8", "TERM": "xterm-256color",
-             "STUB_LESS_VERSION": "less 590 (stub)"}
+             "STUB_LESS_VERSION": "less 590 (stub)", "XDG_DATA_HOME": os.path.join(sdir, "xdg-data")}
         return e
 
 
@@ -210,7 +211,7 @@ STRACE = shutil.which("strace") or "/usr/bin/strace"
 TRACE = "trace=write,close,wait4,waitid,exit_group,clone,clone3,vfork,fork"
 
 
-def run_proc(cmd, env, cwd, stdin_path=None, stdin_bytes=None, timeout=30, stdout_reader=None):
+def run_proc(cmd, env, cwd, stdin_path=None, stdin_bytes=None, timeout=30, stdout_reader=None, pty_stdout=False):
     """Run with stdout/stderr to files (so that an orphaned pager cannot keep our pipes open).
     `stdout_reader = k`: stdout is a pipe that we read k bytes from and then close.
     Returns dict(rc, out, err, t_end)."""
@@ -218,7 +219,35 @@ def run_proc(cmd, env, cwd, stdin_path=None, stdin_bytes=None, timeout=30, stdou
     fin = open(stdin_path, "rb") if stdin_path else (subprocess.PIPE if stdin_bytes is not None else subprocess.DEVNULL)
     ferr = open(errp, "wb")
     try:
-        if stdout_reader is None:
+        if pty_stdout:
+            # stdout is a terminal (80x24): whatever arrives there is drained into the stdout file
+            import fcntl, pty, struct, termios, threading
+            master, slave = pty.openpty()
+            fcntl.ioctl(slave, termios.TIOCSWINSZ, struct.pack("HHHH", 24, 80, 0, 0))
+            p = subprocess.Popen(cmd, env=env, cwd=cwd, stdin=fin, stdout=slave, stderr=ferr)
+            os.close(slave)
+            chunks = []
+
+            def drain():
+                while True:
+                    try:
+                        c = os.read(master, 65536)
+                    except OSError:
+                        break
+                    if not c:
+                        break
+                    chunks.append(c)
+            th = threading.Thread(target=drain, daemon=True)
+            th.start()
+            try:
+                p.wait(timeout=timeout)
+            except subprocess.TimeoutExpired:
+                pass
+            th.join(timeout=1.0)
+            os.close(master)
+            with open(outp, "wb") as f:
+                f.write(b"".join(chunks))
+        elif stdout_reader is None:
             fout = open(outp, "wb")
             p = subprocess.Popen(cmd, env=env, cwd=cwd, stdin=fin, stdout=fout, stderr=ferr)
             fout.close()
@@ -356,13 +385,15 @@ def observe(lab, sc, idx):
             st += ["-e", "inject=write:error=%s:when=%s" % (inj["errno"], inj["when"])]
         cmd = st + cmd
     r = run_proc(cmd, env, sdir, stdin_path=sc.get("stdin"), timeout=sc.get("timeout", 30),
-                 stdout_reader=sc.get("stdout_reader"))
+                 stdout_reader=sc.get("stdout_reader"), pty_stdout=bool(sc.get("pty")))
     obs = dict(rc=r["rc"], stdout=r["out"], stderr=r["err"], t_end=r["t_end"])
     obs["pager_pid"] = pid_of(sdir, "pager.pid")
     obs["sub_pid"] = pid_of(sdir, "sub.pid")
     argv = read_file(os.path.join(sdir, "pager.argv"))
     obs["pager_argv"] = argv.decode("utf-8", "replace").split("\n")[:-1] if argv is not None else None
     obs["pager_stdin"] = read_file(os.path.join(sdir, "pager.stdin"))
+    hf = read_file(os.path.join(sdir, "pager.histfile"))
+    obs["pager_histfile"] = hf.decode("utf-8", "replace").strip() if hf is not None else None
     et = read_file(os.path.join(sdir, "pager.exit_time"))
     try:
         obs["pager_exit_time"] = float(et.strip()) if et else None
@@ -382,7 +413,7 @@ PANIC_RE = re.compile(rb"panicked at|RUST_BACKTRACE|stack backtrace|failed print
 
 
 def brief(obs):
-    d = {k: obs.get(k) for k in ("rc", "events", "nwrites", "stderr_write", "pager_argv", "sub_argv")}
+    d = {k: obs.get(k) for k in ("rc", "events", "nwrites", "stderr_write", "pager_argv", "sub_argv", "pager_histfile")}
     d["stderr"] = (obs.get("stderr") or b"")[:300].decode("utf-8", "replace")
     d["stdout_len"] = len(obs.get("stdout") or b"")
     d["pager_stdin_len"] = None if obs.get("pager_stdin") is None else len(obs["pager_stdin"])
@@ -481,6 +512,82 @@ def expected_precedence(sc):
 
 
 # ------------------------------------------------------------------------------------------
+
+
+NAV_SOURCES = ["off", "flag", "env", "gitconfig"]
+NAV_REGEX = ["absent", "cli-empty", "gitconfig-empty", "regex"]
+NAV_PAGERS = ["default", "PAGER", "config"]
+
+
+def nav_parts(navsrc, regex):
+    """(args, env, gitconfig lines) for one navigate source x navigate-regex form."""
+    args, env, gc = [], {}, []
+    if navsrc == "flag":
+        args.append("--navigate")
+    elif navsrc == "env":
+        env["DELTA_NAVIGATE"] = "1"
+    elif navsrc == "gitconfig":
+        gc.append("navigate = true")
+    if regex == "cli-empty":
+        args += ["--navigate-regex", ""]
+    elif regex == "gitconfig-empty":
+        gc.append("navigate-regex =")
+    elif regex == "regex":
+        args += ["--navigate-regex", "^diff"]
+    return args, env, gc
+
+
+def navigate_scenarios(lab, infile):
+    """Recording stub `less` first on PATH x navigate (off / flag / DELTA_NAVIGATE / gitconfig) x
+    --navigate-regex (absent / '' on the command line / empty in gitconfig / a regex) x paging
+    (always / auto with stdout a pty) x where `less` comes from; plus --show-themes."""
+    scs = []
+    common = ["--dark", "--width", "80"]
+    for navsrc in NAV_SOURCES:
+        for regex in NAV_REGEX:
+            a, e, gc = nav_parts(navsrc, regex)
+            gitconfig = ("[delta]\n" + "".join("    %s\n" % l for l in gc)) if gc else None
+            pre = [] if gitconfig is not None else ["--no-gitconfig"]
+            refkey = "%s/%s" % (navsrc, regex)
+            scs.append(dict(cls="navref", family="navref", refkey=refkey, args=pre + ["--paging", "never"] + common + a,
+                            stdin=infile, path=[lab.pagers], env=dict(e), gitconfig=gitconfig))
+            for paging in ("always", "auto-pty"):
+                for psrc in NAV_PAGERS:
+                    env = dict(e)
+                    args = pre + ["--paging", "always" if paging == "always" else "auto"] + common + a
+                    if psrc == "PAGER":
+                        env["PAGER"] = "less"
+                    elif psrc == "config":
+                        args = ["--pager", "less"] + args
+                    scs.append(dict(cls="navigate", family="navigate", navsrc=navsrc, regex=regex, paging=paging, psrc=psrc,
+                                    show_themes=False, refkey=refkey, args=args, stdin=infile, path=[lab.pagers], env=env,
+                                    gitconfig=gitconfig, pty=(paging == "auto-pty"),
+                                    ref=dict(args=pre + ["--paging", "never"] + common + a, env=dict(e), gitconfig=gitconfig)))
+    themes = os.path.join(REPO, "themes.gitconfig")
+    if os.path.exists(themes):
+        for regex in ("absent", "gitconfig-empty", "gitconfig-regex"):
+            gc = "[include]\n    path = %s\n" % themes
+            if regex == "gitconfig-empty":
+                gc += "[delta]\n    navigate-regex =\n"
+            elif regex == "gitconfig-regex":
+                gc += "[delta]\n    navigate-regex = ^Theme\n"
+            scs.append(dict(cls="navigate", family="show-themes", navsrc="show-themes", regex=regex, paging="always", psrc="default",
+                            show_themes=True, refkey=None, args=["--show-themes", "--dark"], stdin=None, path=[lab.pagers],
+                            env={}, gitconfig=gc, pty=False))
+    return scs
+
+
+def nav_req(sc):
+    rc = {"absent": "none", "cli-empty": "empty", "gitconfig-empty": "empty", "regex": "nonempty", "gitconfig-regex": "nonempty"}[sc["regex"]]
+    nav = sc["show_themes"] or sc["navsrc"] != "off"
+    return "pager.navsetup %d %d %s" % (1 if nav else 0, 1 if sc["show_themes"] else 0, rc)
+
+
+ANSI_RE = re.compile(rb"\x1b\[[0-9;?]*[ -/]*[@-~]|\x1b\][^\x07\x1b]*(?:\x07|\x1b\\\\)")
+
+
+def visible_lines(b):
+    return [ln.rstrip() for ln in ANSI_RE.sub(b"", b or b"").replace(b"\r", b"").split(b"\n")]
 
 
 def run(ctx, rep, only=None):
@@ -719,13 +826,21 @@ def _run(ctx, rep, lab, only):
                                  stdin=None, path=P_GIT, timeout=6, nbytes=nbytes,
                                  env={"STUB_OUT": f_small, "STUB_ERR_BYTES": str(nbytes), "STUB_SUB_EXIT": "0"}))
 
-    rest = fault_scs + reader_scs + select_scs + status_scs + misc_scs + scenarios
+    # ---------------------------------------------------------------- less set-up under navigate
+    nav_scs = navigate_scenarios(lab, f_two) if only is None else []
+
+    rest = fault_scs + reader_scs + select_scs + status_scs + misc_scs + nav_scs + scenarios
     rest_obs = parallel_map(lambda t: observe(lab, t[1], idx + t[0]), list(enumerate(rest)))
 
     # reference output for "the pager received all bytes": stdout-mode run of the small input
     ref_small = None
     if only is None:
         ref_small = stdout_ref.get("small/plain")
+
+    nav_refs = {sc["refkey"]: ob["stdout"] for sc, ob in zip(rest, rest_obs) if sc["cls"] == "navref"}
+    for sc in rest:
+        if sc["cls"] == "navigate" and sc.get("refkey") is not None:
+            sc["expect_stdout"] = nav_refs.get(sc["refkey"])
 
     # ---------------------------------------------------------------- model answers
     reqs = []
@@ -752,6 +867,8 @@ def _run(ctx, rep, lab, only):
                                        sub.get("spawnok", True), sub.get("status", 0), sub.get("stderr_lines", 0)))
         elif c == "oneshot":
             ri = ask(model_run_req("oneshot", False, 1, (0, "bp")))
+        elif c == "navigate":
+            ri = ask(nav_req(sc))
         elif c == "select" and not sc.get("missing"):
             if all(simple_words(sc[k]) for k in ("config_pager", "DELTA_PAGER", "BAT_PAGER", "PAGER")):
                 m = re.match(r"less (\d+)", sc["less_version"])
@@ -971,6 +1088,64 @@ def judge(ctx, rep, lab, sc, ob, ri, answers, ref_small):
             rep.corr_case("pager.run(oneshot)", agree, dict(scenario=replayable(sc), impl=dict(rc=rc, noisy=noisy), model=" ".join(a)))
         return
 
+    if c == "navref":
+        if rc != 0 or err:
+            viol("status:navigate-stdout:%s" % sc["refkey"], "--paging never run: exit status %r, stderr %r" % (rc, err[:200]))
+        return
+
+    if c == "navigate":
+        key = (sc["family"], sc["navsrc"], sc["regex"], sc["paging"], sc["psrc"])
+        tag = "%s:%s" % ("show-themes" if sc["show_themes"] else "navigate-" + ("on" if sc["navsrc"] != "off" else "off"), sc["regex"])
+        rep.case(key=key, nontrivial=sc["navsrc"] != "off" or sc["show_themes"],
+                 sample=dict(cls=c, navsrc=sc["navsrc"], regex=sc["regex"], paging=sc["paging"], pager=sc["psrc"], rc=rc,
+                             argv=ob.get("pager_argv"), histfile=ob.get("pager_histfile")))
+        rep.count("navigate:%s:%s" % (sc["navsrc"], sc["regex"]))
+        argv = ob.get("pager_argv")
+        panicked = rc == 101 or bool(PANIC_RE.search(err or b""))
+        if rc != 0:
+            viol("less-setup-status:" + tag, "less as pager, navigate=%s, navigate-regex %s, paging %s: exit status %r, stderr %r" % (
+                sc["navsrc"], sc["regex"], sc["paging"], rc, err[:160]))
+        elif err and not sc["show_themes"]:
+            # (--show-themes renders every theme of themes.gitconfig; bat's "Unknown theme" warnings for
+            #  syntax themes that are not bundled are about that file, not about the pager)
+            viol("less-setup-noise:" + tag, "unexpected stderr output: %r" % err[:200])
+        if argv is None:
+            viol("less-setup-no-pager:" + tag, "less was never started: nothing reached the pager")
+        else:
+            if os.path.basename(argv[0]) != "less":
+                viol("precedence:navigate", "pager run: %r, expected less" % argv[0])
+            if "--RAW-CONTROL-CHARS" not in argv[1:]:
+                viol("less-without-R:" + tag, "less started without --RAW-CONTROL-CHARS: %r" % argv[1:])
+            got = ob.get("pager_stdin") or b""
+            exp = sc.get("expect_stdout")
+            if sc["show_themes"]:
+                if b"Theme: " not in got:
+                    viol("pager-bytes:" + tag, "the theme listing did not reach the pager")
+            elif exp is not None:
+                same = (got == exp) if not sc.get("pty") else (visible_lines(got) == visible_lines(exp))
+                if not same:
+                    viol("pager-bytes:" + tag, "the pager did not receive the output of the --paging never run")
+            if ob["stdout"]:
+                viol("output-bypassed-pager:" + tag, "%d bytes went to stdout instead of the pager" % len(ob["stdout"]))
+            if rc == 0:
+                check_after_pager(tag)
+        a = model_ans(ri)
+        if a is not None:
+            if a[0] == "PANIC":
+                agree = panicked
+                mdl_d = " ".join(a)
+            elif a[0] == "ok":
+                hist = ob.get("pager_histfile")
+                extra = unhx(a[3]).decode().split("\n") if len(a[3]) > 1 else []
+                agree = (not panicked and argv is not None and (hist not in (None, "<unset>")) == (a[2] == "1")
+                         and all(x in argv[1:] for x in extra) and (bool(extra) or "+n" not in argv[1:]))
+                mdl_d = " ".join(a)
+            else:
+                agree, mdl_d = False, " ".join(a)
+            rep.corr_case("pager.navsetup", agree, dict(scenario=replayable(sc), impl=dict(rc=rc, panicked=panicked, argv=argv,
+                                                                                        histfile=ob.get("pager_histfile")), model=mdl_d))
+        return
+
     if c == "stderr":
         rep.case(key=("stderr", sc["nbytes"]), nontrivial=True, sample=dict(cls=c, nbytes=sc["nbytes"], rc=rc))
         if rc == "timeout":
@@ -1027,6 +1202,10 @@ def _replay_one(ctx, rep, lab, sc):
             base["args"] = ["--no-gitconfig", "--paging", "never"] + tail
         ref = observe(lab, base, 0)["stdout"]
         sc["expect_stdout"] = ref
+    if sc["cls"] == "navigate" and sc.get("ref"):
+        r = sc["ref"]
+        sc["expect_stdout"] = observe(lab, dict(cls="navref", family="navref", refkey=sc.get("refkey"), args=r["args"],
+                                                stdin=sc.get("stdin"), path=sc["path"], env=r["env"], gitconfig=r["gitconfig"]), 0)["stdout"]
     if sc["cls"] == "fault" and "n" not in sc:
         sc["n"] = 0
     ob = observe(lab, sc, 1)
@@ -1043,6 +1222,9 @@ def _replay_one(ctx, rep, lab, sc):
         ri = 0
     elif c == "oneshot":
         reqs.append(model_run_req("oneshot", False, 1, (0, "bp")))
+        ri = 0
+    elif c == "navigate":
+        reqs.append(nav_req(sc))
         ri = 0
     elif c == "reader":
         sub = sc.get("sub", {})
